@@ -25,7 +25,7 @@ CHECKS = {
              "(harness/py2lean.py -> Generated/Asn1Gen.lean) and Props/TiesAsn1.lean + TiesAsn1More.lean (fuel bounds by SIZE, negative arguments, remainder restored) prove, for all inputs and all sufficient fuel, that each generated function "
              "returns exactly what the hand-written model's function returns (same value, same error class) — so the C07 theorems are about what the source says now; "
              "the generated definitions are also run against the real functions (54k cases) to validate the translator. When this tie is not in force (a function left "
-             "the translated subset, or a tie theorem no longer checks) the check says so (NOTE line, evidence.second_tie), searches up to 4x harder, and the property "
+             "the translated subset, or a tie theorem no longer checks) the check says so (NOTE line, evidence.second_tie), searches with count-like parameters x4, and the property "
              "stays decided by the theorems + the correspondence tie.",
         technique="Lean 4 proof (induction on base-256 digits) + Python-AST-to-Lean translator with equality theorems (generated = model) + model/implementation correspondence",
         ref="DESIGN.md §4 C07",
@@ -56,7 +56,7 @@ CHECKS.update({
              "and every call (events computed from call and outcome only), lifted to histories; CLOSED absorbing (no bytes, sends rejected, "
              "input refused); bind gating on client and server; BINDING restricts sends. The one deviation (F-C08c, pinned by the repo's tests) "
              "is carved out explicitly and proved as known_deviation. Model tied to the code by replaying generated joint histories."
-             " Added (Props/C08More, C10More): history refinement with the deviation hypothesis only along the run, and with no hypothesis at all up to BEFORE_OPEN≈OPENED (exact for clients and for any session that has left BEFORE_OPEN); bind gating and the frozen closed session at receive level; acceptance iffs for client requests.",
+             " Added (Props/C08More, C10More): history refinement with the deviation hypothesis only along the run, and with no hypothesis at all up to BEFORE_OPEN≈OPENED (exact for clients and for any session that has left BEFORE_OPEN); bind gating and the frozen closed session at receive level; acceptance iffs for client requests. SECOND TIE (translator): the bookkeeping of _session.py (data_to_send, unbind, _send / _validate_outgoing_message of base, client and server, both _process_incoming_message, receive with the attached notification, the client request and server response methods) is translated method by method from the Python AST into Lean on every run (harness/py2lean_session.py -> Generated/SessionGen.lean; encoding and unpacking abstract) and Props/TiesSession.lean proves every generated method equal to the model function and one generated call equal to one model step for every Call constructor. Not in force => NOTE line, count-like search parameters x4; the property stays decided by the theorems + the correspondence tie.",
         technique="Lean 4 proof (refinement + invariants by induction on reachability) + correspondence on generated histories",
         ref="DESIGN.md §4 C08",
     ),
@@ -64,7 +64,7 @@ CHECKS.update({
         text="Lean theorems: ids issued over any client history are first, first+1, … (refused calls consume none); returned id = id in the emitted "
              "bytes; searches ⊆ outstanding on every reachable client; a message is accepted iff it is a response whose id is outstanding; "
              "lifetime of searches vs other operations; a rejected message closes the session."
-             " Added (Props/C09More): ids are fresh; only a search call enters the search set and only its done message leaves it; for a whole delivery of several messages receive returns them iff the id rule (stated independently) accepts all of them and none is a notice, otherwise protocol error and CLOSED.",
+             " Added (Props/C09More): ids are fresh; only a search call enters the search set and only its done message leaves it; for a whole delivery of several messages receive returns them iff the id rule (stated independently) accepts all of them and none is a notice, otherwise protocol error and CLOSED. SECOND TIE (translator): the bookkeeping of _session.py (data_to_send, unbind, _send / _validate_outgoing_message of base, client and server, both _process_incoming_message, receive with the attached notification, the client request and server response methods) is translated method by method from the Python AST into Lean on every run (harness/py2lean_session.py -> Generated/SessionGen.lean; encoding and unpacking abstract) and Props/TiesSession.lean proves every generated method equal to the model function and one generated call equal to one model step for every Call constructor. Not in force => NOTE line, count-like search parameters x4; the property stays decided by the theorems + the correspondence tie.",
         technique="Lean 4 proof (invariants over reachable states) + correspondence on generated histories",
         ref="DESIGN.md §4 C09",
     ),
@@ -72,14 +72,14 @@ CHECKS.update({
         text="Lean theorems: a refused send call leaves the outgoing bytes unchanged and fails with the library error; a server response is "
              "accepted only for an outstanding id; a final response retires it so any second response is rejected with no wire effect; "
              "entries/references keep it open."
-             " Added (Props/C10More): response_accepted_iff (not closed ∧ binding restriction ∧ id outstanding — nothing else), effects of accepted and refused calls on the whole session, and a ghost characterisation of 'outstanding' from calls and outcomes only.",
+             " Added (Props/C10More): response_accepted_iff (not closed ∧ binding restriction ∧ id outstanding — nothing else), effects of accepted and refused calls on the whole session, and a ghost characterisation of 'outstanding' from calls and outcomes only. SECOND TIE (translator): the bookkeeping of _session.py (data_to_send, unbind, _send / _validate_outgoing_message of base, client and server, both _process_incoming_message, receive with the attached notification, the client request and server response methods) is translated method by method from the Python AST into Lean on every run (harness/py2lean_session.py -> Generated/SessionGen.lean; encoding and unpacking abstract) and Props/TiesSession.lean proves every generated method equal to the model function and one generated call equal to one model step for every Call constructor. Not in force => NOTE line, count-like search parameters x4; the property stays decided by the theorems + the correspondence tie.",
         technique="Lean 4 proof (case analysis of the step function) + correspondence on generated histories",
         ref="DESIGN.md §4 C10",
     ),
     "C12": dict(
         text="Lean theorem queue: over any history from any session, all drained bytes ++ pending bytes = initially pending ++ encodings of exactly "
              "the accepted sends in call order, for every drain amount (None, 0, partial, oversized, negative via Python slice semantics); drain "
-             "changes nothing but the pending bytes.",
+             "changes nothing but the pending bytes. SECOND TIE (translator): the bookkeeping of _session.py (data_to_send, unbind, _send / _validate_outgoing_message of base, client and server, both _process_incoming_message, receive with the attached notification, the client request and server response methods) is translated method by method from the Python AST into Lean on every run (harness/py2lean_session.py -> Generated/SessionGen.lean; encoding and unpacking abstract) and Props/TiesSession.lean proves every generated method equal to the model function and one generated call equal to one model step for every Call constructor. Not in force => NOTE line, count-like search parameters x4; the property stays decided by the theorems + the correspondence tie.",
         technique="Lean 4 proof (one-step FIFO lemma + induction over the history) + correspondence on generated histories",
         ref="DESIGN.md §4 C12",
     ),
@@ -180,7 +180,7 @@ CHECKS.update({
              "sentence of the RFC 4512 grammar denoting it, hence parse (toText d) = d. The regular-expression match of from_string is modelled by a "
              "deterministic scanner which is PROVED equal to the compiled pattern (regenerated from the source with its named groups on every run; "
              "backtracking semantics with captures): Props/TiesSchema.lean, parseX_is_pattern_then_post. Correspondence on generated, mutated, "
-             "long escape-heavy and random strings ties the rest.",
+             "long escape-heavy and random strings ties the rest. SECOND TIE (translator): the hand-written Python around the description regexes (_encode_*, _parse_oids, _parse_qdstring, _parse_extensions, __str__ / from_string of the three classes) is translated from the Python AST into Lean on every run (harness/py2lean_schema.py -> Generated/SchemaGen.lean) and Props/TiesSchemaCode.lean proves generated = model for all strings (differences stated and proved on both sides: the 4300-digit int/str limit; _parse_oids on non-blank white space, unreachable from from_string). Not in force => NOTE line, count-like search parameters x4.",
         technique="Lean 4 proof (text form is a grammar sentence + C17; scanner = translated regex with captures) + translator + correspondence",
         ref="DESIGN.md §4 C16",
     ),
@@ -190,7 +190,7 @@ CHECKS.update({
              "Directory); every sentence parses to exactly the definition it denotes; totality over all strings is by construction in the model "
              "(single error constructor) and is what the correspondence on mutated / random strings checks on the implementation. The scanner that "
              "stands for PATTERN.match is proved equal, on acceptance and on every named group, to the backtracking semantics of the pattern "
-             "regenerated from schema.py (Props/TiesSchema.lean), and the match step is cross-checked three ways (CPython / translated pattern / scanner).",
+             "regenerated from schema.py (Props/TiesSchema.lean), and the match step is cross-checked three ways (CPython / translated pattern / scanner). SECOND TIE (translator): the hand-written Python around the description regexes (_encode_*, _parse_oids, _parse_qdstring, _parse_extensions, __str__ / from_string of the three classes) is translated from the Python AST into Lean on every run (harness/py2lean_schema.py -> Generated/SchemaGen.lean) and Props/TiesSchemaCode.lean proves generated = model for all strings (differences stated and proved on both sides: the 4300-digit int/str limit; _parse_oids on non-blank white space, unreachable from from_string). Not in force => NOTE line, count-like search parameters x4.",
         technique="Lean 4 proof (scanner vs grammar relation; scanner = translated regex with captures) + translator + correspondence + generated-sentence search",
         ref="DESIGN.md §4 C17",
     ),
@@ -204,7 +204,7 @@ CHECKS.update({
              "as equal values; (2) no protocol error other than after the client's unbind; (3) at quiescence both sides agree on the state class "
              "(BEFORE_OPEN ≈ OPENED) and on the operations in progress. Full byte-granular statement (not only message-granular). Admissibility = "
              "calls accepted, responses of the matching kind, no server-initiated termination."
-             " Added (Props/C11More): witnesses of AdmissibleRun, error_only_at_termination (every step outcome is fine or one of three named termination errors), closed_agreement, and the notice-of-disconnection termination.",
+             " Added (Props/C11More): witnesses of AdmissibleRun, error_only_at_termination (every step outcome is fine or one of three named termination errors), closed_agreement, and the notice-of-disconnection termination. SECOND TIE (translator): the bookkeeping of _session.py (data_to_send, unbind, _send / _validate_outgoing_message of base, client and server, both _process_incoming_message, receive with the attached notification, the client request and server response methods) is translated method by method from the Python AST into Lean on every run (harness/py2lean_session.py -> Generated/SessionGen.lean; encoding and unpacking abstract) and Props/TiesSession.lean proves every generated method equal to the model function and one generated call equal to one model step for every Call constructor. Not in force => NOTE line, count-like search parameters x4; the property stays decided by the theorems + the correspondence tie.",
         technique="Lean 4 proof (channel invariant + bookkeeping invariant over ghost logs, induction over the history) + correspondence on joint histories",
         ref="DESIGN.md §4 C11",
     ),
